@@ -162,7 +162,7 @@ def random_vary(tier, seed, n=None):
         steps = []
         total = 0
         for _ in range(r.randrange(3, 9)):
-            req = rq(u=r.choice([0, 0, 0, 1]), sel=list(r.choice(SELS)), selsp=r.randrange(0, 3), usp=r.randrange(0, 6),
+            req = rq(u=r.choice([0, 0, 0, 1]), sel=list(r.choice(SELS)), selsp=r.randrange(0, 3), usp=r.randrange(0, 8),
                      fl=["no-cache"] if r.random() < 0.1 else [],
                      rawkeys=(1 if i % 5 == 2 else 2 if i % 5 == 3 else 0))   # a caller that writes to the header map directly, with lower-case keys
             a1 = rand_vary_ans(r)
@@ -179,8 +179,8 @@ def random_vary(tier, seed, n=None):
 
 
 def reused_requests(tier):
-    """a caller that reuses its request object: once the response is back it changes the selecting header for its next use,
-    while the cache's background revalidation of the previous exchange may still be running"""
+    """a caller that reuses its request object: once the response is back it changes the selecting header (or the URL) for its
+    next use, while the cache's background revalidation of the previous exchange may still be running"""
     out = []
     i = 0
     for et, lm in ((1, NONE), (0, NONE), (0, 40)):
@@ -188,14 +188,16 @@ def reused_requests(tier):
             for bgk in ("full", "304"):
                 if bgk == "304" and et == 0 and lm == NONE:
                     continue
-                stored = ans(ccp=1, ma=5, swr=1000, etag=et, lm=lm, vary=[2])
-                bg = ans(k="304", st=304, ccp=1, ma=50, etag=et, lat=lat) if bgk == "304" else ans(ccp=1, ma=50, swr=1000, etag=et, lm=lm, vary=[2], lat=lat)
-                steps = [{"op": "req", "rq": rq(sel=[0, 0, 1, 0]), "ans": [stored]}, {"op": "tick", "d": 9},
-                         {"op": "req", "rq": rq(sel=[0, 0, 1, 0]), "ans": [bg], "reuse": 2}, {"op": "tick", "d": lat + 1},
-                         {"op": "req", "rq": rq(sel=[0, 0, 2, 0]), "ans": [ans(ccp=1, ma=50, etag=5, vary=[2])]}, {"op": "tick", "d": 1},
-                         {"op": "req", "rq": rq(sel=[0, 0, 1, 0]), "ans": [ans(ccp=1, ma=50, etag=6, vary=[2])]}]
-                out.append({"id": "reuse/%02d" % i, "backend": "mem", "opt": {}, "steps": steps, "grp": "", "spv": 0})
-                i += 1
+                for reuse in (2, 11):
+                    stored = ans(ccp=1, ma=5, swr=1000, etag=et, lm=lm, vary=[2])
+                    bg = ans(k="304", st=304, ccp=1, ma=50, etag=et, lat=lat) if bgk == "304" \
+                        else ans(ccp=1, ma=50, swr=1000, etag=et, lm=lm, vary=[2], lat=lat)
+                    steps = [{"op": "req", "rq": rq(sel=[0, 0, 1, 0]), "ans": [stored]}, {"op": "tick", "d": 9},
+                             {"op": "req", "rq": rq(sel=[0, 0, 1, 0]), "ans": [bg], "reuse": reuse}, {"op": "tick", "d": lat + 1},
+                             {"op": "req", "rq": rq(sel=[0, 0, 2, 0]), "ans": [ans(ccp=1, ma=50, etag=5, vary=[2])]}, {"op": "tick", "d": 1},
+                             {"op": "req", "rq": rq(sel=[0, 0, 1, 0]), "ans": [ans(ccp=1, ma=50, etag=6, vary=[2])]}]
+                    out.append({"id": "reuse/%02d" % i, "backend": "mem", "opt": {}, "steps": steps, "grp": "", "spv": 0})
+                    i += 1
     return out
 
 
@@ -246,16 +248,16 @@ def random_inval(tier, seed, n=None):
                 cloc = r.choice([0, 0, 0, 1, 2, 11])
                 so = lambda c: 1 if c and (c - 1) // 10 == u // 10 else 0
                 a = ans(st=r.choice([200, 201, 204, 301, 303, 400, 404, 500]), ccp=0, etag=0, loc1=loc, locso=so(loc),
-                        cloc1=cloc, clocso=so(cloc), locf=r.choice([0, 1, 2]) if so(loc) else 0)
+                        cloc1=cloc, clocso=so(cloc), locf=r.choice([0, 1, 2, 3, 4]) if so(loc) else 0)
                 if a["locf"] == 1 and cloc and not so(cloc):
                     a["cloc1"], a["clocso"] = 0, 0
-                steps.append({"op": "req", "rq": rq(u=u, m=m, usp=r.randrange(0, 6)), "ans": [a]})
+                steps.append({"op": "req", "rq": rq(u=u, m=m, usp=r.randrange(0, 8)), "ans": [a]})
             else:
                 # some stored responses allow stale-while-revalidate and their background validation is slow, so that
                 # an unsafe request can arrive while it is in flight
                 first = ans(ccp=1, ma=r.choice([100, 100, 3]), etag=1, vary=r.choice([[], [2]]), swr=r.choice([NONE, 60]))
                 slow304 = ans(k="304", st=304, ccp=1, ma=100, etag=1, lat=r.choice([0, 3, 3]))
-                steps.append({"op": "req", "rq": rq(u=u, sel=list(r.choice(SELS[:4])), usp=r.randrange(0, 6)),
+                steps.append({"op": "req", "rq": rq(u=u, sel=list(r.choice(SELS[:4])), usp=r.randrange(0, 8)),
                               "ans": [r.choice([first, slow304]), ans(ccp=1, ma=100, etag=2)]})
             steps.append({"op": "tick", "d": r.choice([0, 1, 1, 5])})
         out.append({"id": "rndinv/%06d" % i, "backend": "fs" if i % 10 == 0 else "mem", "opt": {}, "steps": steps, "grp": "", "spv": 0})
@@ -296,7 +298,7 @@ def inval_named(tier):
                     steps = []
                     for u in ([0] if target_stored else []) + [1, 10]:
                         steps += [{"op": "req", "rq": rq(u=u), "ans": [stored_a]}, {"op": "tick", "d": 1}]
-                    a = ans(st=201, ccp=0, etag=0, loc1=loc, locso=so(loc), cloc1=cloc, clocso=so(cloc))
+                    a = ans(st=201, ccp=0, etag=0, loc1=loc, locso=so(loc), cloc1=cloc, clocso=so(cloc), locf=(i % 5) if so(loc) or so(cloc) else 0)
                     steps += [{"op": "req", "rq": rq(u=0, m=m), "ans": [a]}, {"op": "tick", "d": 1}]
                     for u in (0, 1, 10):
                         steps += [{"op": "req", "rq": rq(u=u), "ans": [ans(ccp=1, ma=100, etag=2)]}]
@@ -363,7 +365,7 @@ def periodic(tier, seed, n=None):
                     ma = r.choice([0, 2, 50])
                     if mode in (1, 2) and i % 2 == 0:
                         v, vs, ma = [], 1, 0  # an origin that always says "Vary: *" and nothing is ever fresh
-                    a = ans(ccp=1, ma=ma, vary=v, vs=vs, etag=1, swr=r.choice([NONE, 5]), dsk=dsk)
+                    a = ans(ccp=1, ma=ma, vary=v, vs=vs, etag=1, swr=r.choice([NONE, 5]), dsk=dsk, vsp=r.choice([0, 2, 2]) if vs == 1 else r.choice([0, 1, 3]))
                     b = ans(k="304", st=304, ccp=1, ma=r.choice([2, 50]), etag=1, dsk=dsk) if r.random() < 0.5 and vs == 0 else a
                     steps.append({"op": "req", "rq": rq(u=u, sel=sel), "ans": [b, a]})
                 d = 0 if mode == 1 else r.choice([0, 1, 3])
@@ -477,14 +479,17 @@ def byte_mutations(tier, seed, n=None):
     out = []
     step = 1 if tier == "thorough" else 5
     a = ans(ccp=1, ma=100, etag=1, vary=[2])
-    for opn, length in ((1, 140), (2, 520)):
-        for pos in range(0, length, step):
-            for kind in ("flipat", "truncat"):
-                steps = [{"op": "req", "rq": rq(sel=[0, 0, 1, 0]), "ans": [a]}, {"op": "tick", "d": 1},
-                         {"op": "req", "rq": rq(sel=[0, 0, 1, 0]), "ans": [ans(ccp=1, ma=60, etag=2)],
+    # (selecting value 1: a plain index; 4: not UTF-8, so the index carries the exact bytes in an extra member)
+    for sv, opn, length in ((1, 1, 140), (1, 2, 520), (4, 1, 260)):
+        for pos in range(0, length, step if sv == 1 else 1):
+            for kind in (("flipat", "truncat") if sv == 1 else ("flipat", "flipat1", "truncat")):
+                steps = [{"op": "req", "rq": rq(sel=[0, 0, sv, 0]), "ans": [a]}, {"op": "tick", "d": 1},
+                         {"op": "req", "rq": rq(sel=[0, 0, sv, 0]), "ans": [ans(ccp=1, ma=60, etag=2)],
                           "faults": [{"n": opn, "kind": kind, "pos": pos}]},
-                         {"op": "tick", "d": 1}, {"op": "req", "rq": rq(sel=[0, 0, 1, 0]), "ans": [ans(ccp=1, ma=60, etag=2)]}]
-                out.append({"id": "mut/%d-%s-%04d" % (opn, kind, pos), "backend": "mem", "opt": {}, "steps": steps, "grp": "", "spv": 0})
+                         {"op": "tick", "d": 1}, {"op": "req", "rq": rq(sel=[0, 0, sv, 0]), "ans": [ans(ccp=1, ma=60, etag=2)]},
+                         {"op": "req", "rq": rq(sel=[0, 0, sv, 0], m="POST"), "ans": [ans(st=200, ccp=0, etag=0)],
+                          "faults": [{"n": 1, "kind": kind, "pos": pos}]}]
+                out.append({"id": "mut/%d%d-%s-%04d" % (sv, opn, kind, pos), "backend": "mem", "opt": {}, "steps": steps, "grp": "", "spv": 0})
     return out
 
 
@@ -688,6 +693,10 @@ def kv_stress(tier):
             out.append({"id": "stress/%s-%d-%d" % (be, dele, i), "backend": be, "keys": [key], "vals": vals,
                         "ops": [{"op": "stress", "k": 0, "n": 3, "p": dele, "cut": 250 if tier == "quick" else 1500}, {"op": "set", "k": 0, "v": 2},
                                 {"op": "get", "k": 0}]})
+            if be != "mem":   # the writers go through two handles on the same directory
+                out.append({"id": "stress2/%s-%d-%d" % (be, dele, i), "backend": be, "keys": [key], "vals": vals,
+                            "ops": [{"op": "stress", "k": 0, "n": 4, "p": dele, "how": "two", "cut": 250 if tier == "quick" else 1500},
+                                    {"op": "set", "k": 0, "v": 2}, {"op": "get", "k": 0}]})
     return out
 
 
